@@ -37,6 +37,55 @@ func constInt(f *ast.File, name string) (int, error) {
 	return 0, fmt.Errorf("const %s not found", name)
 }
 
+// constant integer expressions: literals, other constants of the same file, + and *
+func constEval(f *ast.File, e ast.Expr, depth int) (int, error) {
+	if depth > 8 {
+		return 0, fmt.Errorf("constant expression too deep")
+	}
+	switch t := e.(type) {
+	case *ast.BasicLit:
+		return strconv.Atoi(t.Value)
+	case *ast.Ident:
+		return constExpr(f, t.Name, depth+1)
+	case *ast.ParenExpr:
+		return constEval(f, t.X, depth+1)
+	case *ast.BinaryExpr:
+		a, err := constEval(f, t.X, depth+1)
+		if err != nil {
+			return 0, err
+		}
+		b, err := constEval(f, t.Y, depth+1)
+		if err != nil {
+			return 0, err
+		}
+		switch t.Op {
+		case token.MUL:
+			return a * b, nil
+		case token.ADD:
+			return a + b, nil
+		}
+	}
+	return 0, fmt.Errorf("unsupported constant expression")
+}
+
+func constExpr(f *ast.File, name string, depth int) (int, error) {
+	for _, d := range f.Decls {
+		gd, ok := d.(*ast.GenDecl)
+		if !ok || gd.Tok != token.CONST {
+			continue
+		}
+		for _, s := range gd.Specs {
+			vs := s.(*ast.ValueSpec)
+			for i, n := range vs.Names {
+				if n.Name == name && i < len(vs.Values) {
+					return constEval(f, vs.Values[i], depth)
+				}
+			}
+		}
+	}
+	return 0, fmt.Errorf("const %s not found", name)
+}
+
 func exprText(e ast.Expr) string {
 	switch t := e.(type) {
 	case *ast.Ident:
@@ -110,6 +159,10 @@ func init() {
 		if err != nil {
 			return "", err
 		}
+		workspace, err := constExpr(lim, "MaxRequestWorkspaceSize", 0)
+		if err != nil {
+			return "", err
+		}
 		callGuards := countGuards(sub, "len(i.callStack)>maxCallStackExceedCount")
 		rg := "i.ctx.Restarts+1>limitations.MaxVarnishRestarts"
 		restartGuards := countGuards(stm, rg) + countGuards(itp, rg)
@@ -121,10 +174,11 @@ func init() {
 			return true
 		})
 		var b strings.Builder
-		b.WriteString("(* GENERATED from interpreter/subroutine.go, limitations/limitations.go, statement.go, interpreter.go, include.go by trans; do not edit *)\n")
+		b.WriteString("(* GENERATED from interpreter/subroutine.go, limitations/limitations.go, statement.go, interpreter.go, include.go by trans; do not edit *)\nFrom Coq Require Import ZArith.\n")
 		fmt.Fprintf(&b, "Definition maxCallStackExceedCount : nat := %d.\n", depth)
 		fmt.Fprintf(&b, "Definition MaxVarnishRestarts : nat := %d.\n", restarts)
-		fmt.Fprintf(&b, "Definition MaxSubroutineCallTree : nat := %d.\n", callTree)
+		fmt.Fprintf(&b, "Definition MaxSubroutineCallTree : Z := %d%%Z.\n", callTree)
+		fmt.Fprintf(&b, "Definition MaxRequestWorkspaceSize : Z := %d%%Z.\n", workspace)
 		fmt.Fprintf(&b, "Definition call_guard_sites : nat := %d.\n", callGuards)
 		fmt.Fprintf(&b, "Definition restart_guard_sites : nat := %d.\n", restartGuards)
 		fmt.Fprintf(&b, "Definition include_guard_sites : nat := %d.\n", incGuards)
